@@ -439,7 +439,7 @@ func genVecForm(rt *rapid.T, n int, label string) []int {
 	return []int{1, n}
 }
 
-var c09Layouts = []string{"contig", "lazyT", "sliced", "stepsliced", "materialized", "physT"}
+var c09Layouts = []string{"contig", "lazyT", "sliced", "stepsliced", "materialized", "physT", "Tsliced", "leadsliced", "picked"}
 
 func c09Values(rt *rapid.T, shape []int, lk string, label string) Opnd {
 	return genOpnd(rt, shape, lk, -3, 4, 0, label)
